@@ -1034,7 +1034,8 @@ func TestC16(t *testing.T) {
 			rt.Fatalf("inconclusive: an untampered block rewritten by its own signer is not stored (%s): %+v", step, ierr)
 		}
 
-		nontrivial := tm.Kind != "rewritten-untampered" && !tm.Swapped
+		// voteproofs-other-round is not judged (see c16Inconsistent): it does not count as a non-trivial case
+		nontrivial := tm.Kind != "rewritten-untampered" && !tm.Swapped && tm.Kind != "voteproofs-other-round"
 		classes := []string{"kind:" + tm.Kind, fmt.Sprintf("attacker-signed:%v", attackerSigns)}
 
 		if stored {
